@@ -23,6 +23,7 @@ describe(
 )
 
 REF = f"{API}.Reference"
+ALTERING = {"str_strip_whitespace", "str_to_lower", "str_to_upper", "str_max_length", "coerce_numbers_to_str", "validate_default", "alias_generator"}
 
 
 def ref_classes(cx: Cx, ob: Ob):
@@ -104,9 +105,25 @@ def d2(cx: Cx, ob: Ob) -> None:
         if op(t) != "cmp" or t[1] != "<":
             ob.violate(lt.qualname, lt.where, f"__lt__ returns `{show(t)[:60]}`, not a `<` comparison", detail="operator")
             continue
-        a, b = reftuple_args(t[2]), reftuple_args(t[3])
+        def pair_of(x):
+            if op(x) == "list" and len(x[1]) == 2:
+                return x[1][0], x[1][1]
+            return reftuple_args(x)
+
+        a, b = pair_of(t[2]), pair_of(t[3])
         if a is None or b is None:
-            ob.undecide("__lt__ does not compare two (prefix, identifier) pairs")
+            read_a = sorted(_fields_read(t[2], me))
+            read_b = sorted(_fields_read(t[3], other))
+            if read_a or read_b:
+                ob.violate(
+                    lt.qualname,
+                    lt.where,
+                    f"__lt__ compares `{show(t[2])[:40]}` < `{show(t[3])[:40]}`, which is not the lexicographic order on the (prefix, identifier) pair",
+                    witness="e.g. ('omim','x') < ('omim.ps','1') but 'omim.ps:1' < 'omim:x'; or identifiers ignored when only prefixes are compared",
+                    detail="not-pair-order",
+                )
+            else:
+                ob.undecide("__lt__ does not compare two (prefix, identifier) pairs")
             continue
         if a != (("attr", me, "prefix"), ("attr", me, "identifier")) or b != (("attr", other, "prefix"), ("attr", other, "identifier")):
             ob.violate(lt.qualname, lt.where, f"__lt__ compares `{show(t[2])[:40]}` < `{show(t[3])[:40]}`; it must be the lexicographic order on (prefix, identifier) of self vs other", detail="pair")
@@ -210,6 +227,8 @@ def d4(cx: Cx, ob: Ob) -> None:
             for k in cfg.keywords:
                 if k.arg == "frozen" and isinstance(k.value, ast.Constant):
                     frozen = k.value.value
+                if k.arg in ALTERING and not (isinstance(k.value, ast.Constant) and k.value.value in (False, None)):
+                    ob.violate(ci.qualname, where_, f"{ci.name}.model_config sets {k.arg}: prefix/identifier strings are altered on construction, so printing and parsing are no longer inverse", witness="Reference(prefix='a', identifier=' 1').curie == 'a:1'", detail=f"config:{k.arg}")
         elif isinstance(cfg, ast.Dict):
             for k, v in zip(cfg.keys, cfg.values):
                 if isinstance(k, ast.Constant) and k.value == "frozen" and isinstance(v, ast.Constant):
